@@ -82,10 +82,10 @@ def spec_violated(rep):
             if f[4] != "-":
                 want[f[1]] = f[4]
         m = re.search(r"keys=\[([^\]]*)\]", line)
-        if m and f[0] in ("go", "shiftm", "shiftexp", "spawn"):
+        if m and f[0] in ("go", "shiftm", "shiftmm", "shiftexp", "spawn"):
             got = [x.split(":") for x in m.group(1).split(",") if x]
-            w = f[2] if f[0] == "shiftm" else (want.get(f[1]) if f[0] == "go" else None)
-            n = int(f[1]) if f[0] in ("shiftm", "shiftexp") else how.get(f[1], 10 ** 9)
+            w = f[2] if f[0] == "shiftm" else (f[3] if f[0] == "shiftmm" else (want.get(f[1]) if f[0] == "go" else None))
+            n = int(f[1]) if f[0] in ("shiftm", "shiftexp") else (min(int(f[1]), int(f[2])) if f[0] == "shiftmm" else how.get(f[1], 10 ** 9))
             if len(got) > n:
                 return "`%s` returned %d records, more than requested" % (op, len(got))
             for k, s in got:
